@@ -189,6 +189,8 @@ pub struct Run {
     pub reads: Vec<usize>,
     /// At the first `Err`: (messages produced so far, bytes fed so far, stream offset of the first unread byte).
     pub first_err: Option<(usize, usize, usize)>,
+    /// Everything the decoder returned, in order: `Ok(i)` = index into `msgs`, `Err((text, offset of the first unread byte))`.
+    pub events: Vec<Result<usize, (String, usize)>>,
 }
 
 /// Append a chunk, call `decode` until `Ok(None)`; after the last chunk call `decode_eof` until
@@ -201,7 +203,7 @@ pub fn feed(dec: &mut dyn Dec, stream: &[u8], chunks: &mut dyn FnMut(usize) -> u
 /// (`run.err` / `run.first_err` describe the first one).
 pub fn feed_opts(dec: &mut dyn Dec, stream: &[u8], chunks: &mut dyn FnMut(usize) -> usize, max_errs: usize) -> Run {
     let mut errs = 0usize;
-    let mut run = Run { msgs: vec![], err: None, contract: None, leftover: 0, decode_calls: 0, reads: vec![], first_err: None };
+    let mut run = Run { msgs: vec![], err: None, contract: None, leftover: 0, decode_calls: 0, reads: vec![], first_err: None, events: vec![] };
     let mut buf = BytesMut::new();
     let mut fed = 0usize;
     let mut idle = 0u32;
@@ -236,6 +238,7 @@ pub fn feed_opts(dec: &mut dyn Dec, stream: &[u8], chunks: &mut dyn FnMut(usize)
                     } else {
                         idle = 0;
                     }
+                    run.events.push(Ok(run.msgs.len()));
                     run.msgs.push((m, fed - buf.len()));
                 }
                 Ok(None) => {
@@ -249,6 +252,7 @@ pub fn feed_opts(dec: &mut dyn Dec, stream: &[u8], chunks: &mut dyn FnMut(usize)
                 }
                 Err(e) => {
                     errs += 1;
+                    run.events.push(Err((e.clone(), fed - buf.len())));
                     if run.err.is_none() {
                         run.err = Some(e);
                         run.first_err = Some((run.msgs.len(), fed, fed - buf.len()));
@@ -278,10 +282,12 @@ pub fn feed_opts(dec: &mut dyn Dec, stream: &[u8], chunks: &mut dyn FnMut(usize)
                 } else {
                     idle = 0;
                 }
+                run.events.push(Ok(run.msgs.len()));
                 run.msgs.push((m, fed - buf.len()));
             }
             Ok(None) => break,
             Err(e) => {
+                run.events.push(Err((e.clone(), fed - buf.len())));
                 if run.err.is_none() {
                     run.err = Some(e);
                     run.first_err = Some((run.msgs.len(), fed, fed - buf.len()));
@@ -1031,15 +1037,60 @@ pub fn check_ill(fam: &Fam, c: &IllCase) -> Verdict {
                                 format!("when the error for frame {} ({}..{}) was reported {} bytes had been consumed", bad, bad_start, bad_end, pos),
                             ));
                         }
-                        // informational: does the decoder find the next frame again?
-                        let next_bad = (bad + 1..n).find(|i| st.ill[*i]).unwrap_or(n);
-                        if next_bad > bad + 1 {
-                            let after = &run.msgs[msgs_before.min(run.msgs.len())..];
-                            let want = &st.expected[bad + 1..next_bad];
-                            if after.len() >= want.len() && after.iter().zip(want).all(|((m, _), w)| m == w) {
-                                resync_ok += 1;
-                            } else {
+                        // Round 3: the decoders are written to carry on after a rejected body
+                        // (Discarding states, state reset on error), so this is asserted too: the
+                        // error consumes exactly the rejected frame, and every later frame gives
+                        // exactly its message (or, if ill-typed as well, exactly one error) and
+                        // consumes exactly its own bytes - the frag law, continued past the error.
+                        let first_ev = run.events.iter().position(|e| e.is_err()).unwrap_or(run.events.len());
+                        let mut problem: Option<String> = None;
+                        let mut problem_at = bad;
+                        for (k, j) in (bad..n).enumerate() {
+                            let ev = run.events.get(first_ev + k);
+                            let want_err = st.ill[j];
+                            let bad_here = match ev {
+                                None => Some(format!("nothing was returned for frame {} ({})", j, if want_err { "an error was due".to_string() } else { short(&st.expected[j]) })),
+                                Some(Err((e, pos))) => {
+                                    if !want_err {
+                                        Some(format!("frame {} = {} gave the error {}", j, short(&st.expected[j]), e))
+                                    } else if *pos != st.ends[j] {
+                                        Some(format!("the error for ill-typed frame {} was returned with {} bytes consumed but the frame ends at {}", j, pos, st.ends[j]))
+                                    } else {
+                                        None
+                                    }
+                                }
+                                Some(Ok(i)) => {
+                                    let (m, pos) = &run.msgs[*i];
+                                    if want_err {
+                                        Some(format!("ill-typed frame {} gave the message {}", j, short(m)))
+                                    } else if m != &st.expected[j] {
+                                        Some(format!("frame {} decoded as {} but {} was encoded", j, short(m), short(&st.expected[j])))
+                                    } else if *pos != st.ends[j] {
+                                        Some(format!("after frame {} the decoder had consumed {} bytes but the frame ends at {}", j, pos, st.ends[j]))
+                                    } else {
+                                        None
+                                    }
+                                }
+                            };
+                            if bad_here.is_some() {
+                                problem = bad_here;
+                                problem_at = j;
+                                break;
+                            }
+                        }
+                        if problem.is_none() && run.events.len() > first_ev + (n - bad) {
+                            problem = Some("more messages / errors were returned than frames were encoded".to_string());
+                            problem_at = n - 1;
+                        }
+                        match problem {
+                            None => resync_ok += 1,
+                            Some(p) => {
                                 resync_lost += 1;
+                                fails.push((
+                                    // named after the frame at which the stream goes wrong
+                                    format!("resync:{}@{}", fam.name, st.expected[problem_at].kind()),
+                                    format!("after the error for ill-typed frame {} ({}..{}): {}", bad, bad_start, bad_end, p),
+                                ));
                             }
                         }
                     }
@@ -1055,17 +1106,17 @@ pub fn check_ill(fam: &Fam, c: &IllCase) -> Verdict {
     };
     for (how, offs) in plans {
         let mut d = (fam.dec)();
-        let run = feed_opts(d.as_mut(), &st.bytes, &mut chunker_from_offsets(offs), 6);
+        let run = feed_opts(d.as_mut(), &st.bytes, &mut chunker_from_offsets(offs), 8);
         evaluate(&mut v, how, run);
     }
     {
         let mut d = (fam.dec)();
-        let run = feed_opts(d.as_mut(), &st.bytes, &mut |_| 1, 6);
+        let run = feed_opts(d.as_mut(), &st.bytes, &mut |_| 1, 8);
         evaluate(&mut v, "one byte per read".into(), run);
     }
     {
         let mut d = (fam.dec)();
-        let run = feed_opts(d.as_mut(), &st.bytes, &mut chunker_from_cuts(&c.cuts), 6);
+        let run = feed_opts(d.as_mut(), &st.bytes, &mut chunker_from_cuts(&c.cuts), 8);
         evaluate(&mut v, format!("reads of sizes from cuts {:?}", c.cuts), run);
     }
     v.class_if(resync_ok > 0 && resync_lost == 0, "resync:always");
@@ -1077,7 +1128,7 @@ pub fn check_ill(fam: &Fam, c: &IllCase) -> Verdict {
 // ---------------------------------------------------------------------------------------------
 // Large frames (around the 8 KiB and 64 KiB marks) delivered in many reads
 
-pub const BIG_LENS: &[u32] = &[8191, 8192, 8193, 65535, 65536, 65537, 65538, 65600, 70001, 140000];
+pub const BIG_LENS: &[u32] = &[4095, 4096, 4097, 8191, 8192, 8193, 65535, 65536, 65537, 65538, 65600, 70001, 100000, 140000];
 pub const BIG_CHUNKS: &[u32] = &[7, 64, 1000, 4096, 8192, 65536];
 
 #[derive(Clone, Debug, Serialize, Deserialize)]
@@ -1092,12 +1143,18 @@ pub struct BigCase {
     pub frame_len: u32,
     pub chunk: u32,
     pub cuts: Vec<u16>,
+    /// Which length-prefixed part is made big: 0 the body (last scalar), 1 node, 2 lane, 3 host
+    /// (commands and routed messages; falls back to the body where there is no such string).
+    #[serde(default)]
+    pub target: u8,
 }
 
 pub fn arb_big(fam: &Fam) -> BoxedStrategy<BigCase> {
     let mode = fam.sc_mode();
     let item = ((fam.msgs)(mode), any::<bool>()).prop_map(|(m, typed)| Item { m, typed });
-    let template = item.clone().prop_filter("message with a body", |it| !it.m.scalars().is_empty());
+    let template = item.clone().prop_filter("message with a body or a path", |it| {
+        !it.m.scalars().is_empty() || matches!(it.m, Msg::Routed { .. } | Msg::CmdRegister { .. })
+    });
     (
         proptest::collection::vec(item.clone(), 0..=2),
         template,
@@ -1106,8 +1163,9 @@ pub fn arb_big(fam: &Fam) -> BoxedStrategy<BigCase> {
         proptest::sample::select(BIG_LENS),
         proptest::sample::select(BIG_CHUNKS),
         arb_cuts(),
+        0u8..4,
     )
-        .prop_map(|(pre, template, post, style, frame_len, chunk, cuts)| BigCase { pre, template, post, style, frame_len, chunk, cuts })
+        .prop_map(|(pre, template, post, style, frame_len, chunk, cuts, target)| BigCase { pre, template, post, style, frame_len, chunk, cuts, target })
         // One evaluation delivers a stream of up to 140 KiB about ten times: thousands of shrink
         // steps would take the better part of an hour. The case is compact as it is (the big
         // body is described by style and frame_len, not stored).
@@ -1174,6 +1232,31 @@ pub fn check_big(fam: &Fam, c: &BigCase) -> Verdict {
         _ => "big:record",
     });
     v.class(intern(format!("frame-len:{}", c.frame_len)));
+    // Which part grows: a node / lane / host string of exactly frame_len bytes, or the body.
+    let name = |n: usize| -> String {
+        let mut s = String::from("/");
+        while s.len() < n {
+            s.push((b'a' + (s.len() % 26) as u8) as char);
+        }
+        s
+    };
+    let named: Option<(Msg, &'static str)> = {
+        let n = c.frame_len as usize;
+        match (&c.template.m, c.target) {
+            (Msg::Routed { origin, lane, env, .. }, 1) => Some((Msg::Routed { origin: *origin, node: name(n), lane: lane.clone(), env: env.clone() }, "big:node")),
+            (Msg::Routed { origin, node, env, .. }, 2) => Some((Msg::Routed { origin: *origin, node: node.clone(), lane: name(n), env: env.clone() }, "big:lane")),
+            (Msg::Routed { origin, env, .. }, 3) => Some((Msg::Routed { origin: *origin, node: name(n / 2), lane: name(n - n / 2), env: env.clone() }, "big:node+lane")),
+            (Msg::CmdRegister { host, lane, id, .. }, 1) => Some((Msg::CmdRegister { host: host.clone(), node: name(n), lane: lane.clone(), id: *id }, "big:node")),
+            (Msg::CmdRegister { host, node, id, .. }, 2) => Some((Msg::CmdRegister { host: host.clone(), node: node.clone(), lane: name(n), id: *id }, "big:lane")),
+            (Msg::CmdRegister { node, lane, id, .. }, 3) => Some((Msg::CmdRegister { host: Some(name(n)), node: node.clone(), lane: lane.clone(), id: *id }, "big:host")),
+            (Msg::CmdRegister { host, lane, id, .. }, _) => Some((Msg::CmdRegister { host: host.clone(), node: name(n), lane: lane.clone(), id: *id }, "big:node")),
+            (Msg::CmdAddressed { host, lane, body, ow, .. }, 1) => Some((Msg::CmdAddressed { host: host.clone(), node: name(n), lane: lane.clone(), body: body.clone(), ow: *ow }, "big:node")),
+            (Msg::CmdAddressed { host, node, body, ow, .. }, 2) => Some((Msg::CmdAddressed { host: host.clone(), node: node.clone(), lane: name(n), body: body.clone(), ow: *ow }, "big:lane")),
+            (Msg::CmdAddressed { node, lane, body, ow, .. }, 3) => Some((Msg::CmdAddressed { host: Some(name(n)), node: node.clone(), lane: lane.clone(), body: body.clone(), ow: *ow }, "big:host")),
+            (Msg::Routed { origin, lane, env, .. }, _) if c.template.m.scalars().is_empty() => Some((Msg::Routed { origin: *origin, node: name(n), lane: lane.clone(), env: env.clone() }, "big:node")),
+            _ => None,
+        }
+    };
     let frame_of = |n: usize| -> (Item, usize) {
         let it = Item { m: with_last_scalar(&c.template.m, &big_body(style, n)), typed: c.template.typed };
         let mut dst = BytesMut::new();
@@ -1182,9 +1265,21 @@ pub fn check_big(fam: &Fam, c: &BigCase) -> Verdict {
     };
     // fit the body so that the frame has exactly the wanted length (styles 0-2)
     let target = c.frame_len as usize;
-    let (_, l1) = frame_of(64);
-    let overhead = l1 - 64;
-    let (big, flen) = frame_of(target.saturating_sub(overhead).max(8));
+    let (big, flen) = match named {
+        Some((m, class)) => {
+            v.class(class);
+            let it = Item { m, typed: c.template.typed };
+            let mut dst = BytesMut::new();
+            fam.encode(&it.m, it.typed, &mut dst);
+            (it, dst.len())
+        }
+        None => {
+            v.class("big:body");
+            let (_, l1) = frame_of(64);
+            let overhead = l1 - 64;
+            frame_of(target.saturating_sub(overhead).max(8))
+        }
+    };
     v.class_if(flen == target, "big:exact-length");
     let mut items = c.pre.clone();
     let big_idx = items.len();
@@ -1203,7 +1298,7 @@ pub fn check_big(fam: &Fam, c: &BigCase) -> Verdict {
     v.class(intern(format!("reads-of:{}", chunk)));
     let mut plans: Vec<(String, Vec<usize>)> = vec![("whole stream in one read".into(), vec![])];
     plans.push((format!("reads of {} bytes", chunk), (1..=len / chunk).map(|i| i * chunk).filter(|p| *p < len).collect()));
-    for p in [be - 1, be.saturating_sub(2), be + 1, bs + 8192, bs + 65536, bs + 65537, bs + 1] {
+    for p in [be - 1, be.saturating_sub(2), be + 1, bs + 4096, bs + 8192, bs + 65536, bs + 65537, bs + 65568, bs + 1] {
         if p > 0 && p < len {
             plans.push((format!("two reads split at {}", p), vec![p]));
         }
